@@ -1,4 +1,210 @@
 import EaModel.Tasks
+/-!
+# C12 — parallel task managers respect their bound and keep tasks alive
+
+Theorems about the task-manager model (`EaModel/Tasks.lean`) for every finite list of harness operations
+(submissions from outside, from inside running tasks and from listeners woken by finishing tasks; completions,
+failures, external cancellations) and every limit ≥ 1 and policy.
+-/
 namespace Ea.C12
-theorem placeholder : True := trivial
+
+def runT (s : TSt) (ops : List TOp) : TSt := ops.foldl tstep s
+
+/-- the invariant: a limiting parallel manager never tracks more than `limit` tasks -/
+def Bounded (limit : Nat) (s : TSt) : Prop := s.tracked.length ≤ limit
+
+theorem createTask_tracked (s : TSt) (c : Nat) : (s.createTask c).1.tracked = s.tracked := rfl
+
+theorem cancelTask_tracked (s : TSt) (t : Nat) : (s.cancelTask t).tracked = s.tracked := by
+  unfold TSt.cancelTask
+  simp only []
+  split
+  · rfl
+  · rfl
+  · split <;> rfl
+
+theorem cancelTask_kind (s : TSt) (t : Nat) : (s.cancelTask t).kind = s.kind := by
+  unfold TSt.cancelTask
+  simp only []
+  split
+  · rfl
+  · rfl
+  · split <;> rfl
+
+theorem submit_kind (s : TSt) (limit : Nat) (p : ParPolicy) (c k : Nat) (hk : s.kind = .limitingPar limit p) :
+    (submit s c k).kind = .limitingPar limit p := by
+  unfold submit
+  rw [hk]
+  simp only []
+  split
+  · cases p <;> simp only []
+    · exact hk
+    · split
+      · exact hk
+      · simp [TSt.createTask, cancelTask_kind, hk]
+    · split
+      · exact hk
+      · simp [TSt.createTask, cancelTask_kind, hk]
+  · exact hk
+
+/-- `create_task` of the limiting parallel manager keeps the bound: at the limit it either drops the new
+coroutine (skip) or untracks the oldest / newest task before it tracks the new one -/
+theorem submit_bounded (s : TSt) (limit : Nat) (p : ParPolicy) (c k : Nat) (hl : 1 ≤ limit)
+    (hk : s.kind = .limitingPar limit p) (h : Bounded limit s) : Bounded limit (submit s c k) := by
+  unfold Bounded at *
+  unfold submit
+  rw [hk]
+  simp only []
+  split
+  · next hge =>
+    cases p <;> simp only []
+    · exact h
+    · split
+      · next he => simp [TSt.createTask]; omega
+      · next t0 rest he =>
+        simp [TSt.createTask, cancelTask_tracked]
+        rw [he] at h; simp at h; omega
+    · split
+      · next he => simp [TSt.createTask]; omega
+      · next t0 he =>
+        simp [TSt.createTask, cancelTask_tracked]
+        have : s.tracked ≠ [] := by intro e; rw [e] at he; simp at he
+        have := List.length_pos_iff.2 this
+        omega
+  · next hlt =>
+    simp [TSt.createTask]; omega
+
+theorem submitAll_bounded (limit : Nat) (p : ParPolicy) (hl : 1 ≤ limit) :
+    ∀ (subs : List (Nat × Nat)) (s : TSt), s.kind = .limitingPar limit p → Bounded limit s →
+      (submitAll s subs).kind = .limitingPar limit p ∧ Bounded limit (submitAll s subs)
+  | [], s, hk, h => ⟨hk, h⟩
+  | (c, k) :: rest, s, hk, h => by
+    unfold submitAll
+    exact submitAll_bounded limit p hl rest _ (submit_kind s limit p c k hk) (submit_bounded s limit p c k hl hk h)
+
+theorem setTask_frame (s : TSt) (t : Nat) (x : Task) :
+    (s.setTask t x).tracked = s.tracked ∧ (s.setTask t x).kind = s.kind := ⟨rfl, rfl⟩
+
+theorem runReady_bounded (limit : Nat) (p : ParPolicy) (hl : 1 ≤ limit) (s : TSt) (r : Ready)
+    (hk : s.kind = .limitingPar limit p) (h : Bounded limit s) :
+    (runReady s r).kind = .limitingPar limit p ∧ Bounded limit (runReady s r) := by
+  unfold Bounded at *
+  cases r with
+  | step t =>
+    simp only [runReady]
+    split
+    · exact ⟨hk, h⟩
+    · split
+      · exact ⟨hk, h⟩
+      · exact ⟨hk, h⟩
+  | resume t fail last =>
+    simp only [runReady]
+    split
+    · exact ⟨hk, h⟩
+    · obtain ⟨k1, b1⟩ := submitAll_bounded limit p hl last.inside s hk h
+      split
+      · exact ⟨k1, b1⟩
+      · exact ⟨k1, b1⟩
+  | resumeCancel t =>
+    simp only [runReady]
+    split
+    · exact ⟨hk, h⟩
+    · exact ⟨hk, h⟩
+  | doneCb t =>
+    simp only [runReady, managerDone]
+    have hk' : (s.setTask t { s.task t with delivered := true }).kind = .limitingPar limit p := hk
+    rw [hk']
+    simp only []
+    constructor
+    · first | exact hk | trivial
+    · show ((s.tracked).erase t).length ≤ limit
+      have := List.length_erase_le (a := t) (l := s.tracked)
+      omega
+  | listener subs =>
+    simp only [runReady]
+    exact submitAll_bounded limit p hl subs s hk h
+
+theorem drain_bounded (limit : Nat) (p : ParPolicy) (hl : 1 ≤ limit) :
+    ∀ (n : Nat) (s : TSt), s.kind = .limitingPar limit p → Bounded limit s →
+      (drain n s).kind = .limitingPar limit p ∧ Bounded limit (drain n s)
+  | 0, s, hk, h => ⟨hk, h⟩
+  | n + 1, s, hk, h => by
+    unfold drain
+    split
+    · exact ⟨hk, h⟩
+    · next r rest hr =>
+      obtain ⟨k1, b1⟩ := runReady_bounded limit p hl { s with ready := rest } r hk h
+      exact drain_bounded limit p hl n _ k1 b1
+
+/-- **bound**: in every reachable state the limiting parallel manager tracks at most `limit` tasks -/
+theorem bound (limit : Nat) (p : ParPolicy) (hl : 1 ≤ limit) (ops : List TOp) :
+    (runT { kind := .limitingPar limit p } ops).tracked.length ≤ limit := by
+  suffices h : ∀ (s : TSt), s.kind = .limitingPar limit p → Bounded limit s →
+      (runT s ops).kind = .limitingPar limit p ∧ Bounded limit (runT s ops) from
+    (h _ rfl (by simp [Bounded])).2
+  induction ops with
+  | nil => intro s hk h; exact ⟨hk, h⟩
+  | cons op ops ih =>
+    intro s hk h
+    simp only [runT, List.foldl]
+    have key : (applyOp s op).kind = .limitingPar limit p ∧ Bounded limit (applyOp s op) := by
+      cases op with
+      | submit c k => exact ⟨submit_kind s limit p c k hk, submit_bounded s limit p c k hl hk h⟩
+      | complete t fail last => simp only [applyOp]; split <;> exact ⟨hk, h⟩
+      | cancel t =>
+        exact ⟨by simp only [applyOp]; rw [cancelTask_kind]; exact hk,
+               by simp only [applyOp]; unfold Bounded; rw [cancelTask_tracked]; exact h⟩
+    have := drain_bounded limit p hl DRAIN_FUEL _ key.1 key.2
+    exact ih _ this.1 this.2
+
+/-- **skip** closes the new coroutine unstarted and changes nothing else -/
+theorem skip_closes (s : TSt) (limit c k : Nat) (hk : s.kind = .limitingPar limit .skip)
+    (hfull : s.tracked.length ≥ limit) : submit s c k = s.emit (.closed c) := by
+  unfold submit; rw [hk]; simp [hfull]
+
+/-- **cancel_first** cancels and untracks the OLDEST tracked task before the new one is created -/
+theorem cancel_first_oldest (s : TSt) (limit c k t0 : Nat) (rest : List Nat)
+    (hk : s.kind = .limitingPar limit .cancelFirst) (hfull : s.tracked.length ≥ limit) (ht : s.tracked = t0 :: rest) :
+    submit s c k =
+      (let s1 := { s with tracked := rest }.cancelTask t0
+       { (s1.createTask c).1 with tracked := (s1.createTask c).1.tracked ++ [(s1.createTask c).2] }) := by
+  unfold submit
+  rw [hk]
+  simp only []
+  rw [if_pos hfull]
+  simp only [ht]
+
+/-- **cancel_last** cancels and untracks the NEWEST tracked task before the new one is created -/
+theorem cancel_last_newest (s : TSt) (limit c k t0 : Nat)
+    (hk : s.kind = .limitingPar limit .cancelLast) (hfull : s.tracked.length ≥ limit)
+    (ht : s.tracked.getLast? = some t0) :
+    submit s c k =
+      (let s1 := { s with tracked := s.tracked.dropLast }.cancelTask t0
+       { (s1.createTask c).1 with tracked := (s1.createTask c).1.tracked ++ [(s1.createTask c).2] }) := by
+  unfold submit
+  rw [hk]
+  simp only []
+  rw [if_pos hfull]
+  simp only [ht]
+
+/-- a finished task frees its slot: the done callback removes it from the tracked tasks -/
+theorem slot_freed (s : TSt) (limit : Nat) (p : ParPolicy) (t : Nat) (hk : s.kind = .limitingPar limit p) :
+    (managerDone s t).tracked = s.tracked.erase t := by
+  unfold managerDone
+  have hk' : (s.setTask t { s.task t with delivered := true }).kind = .limitingPar limit p := hk
+  simp only [hk']
+  rfl
+
+/-- the unbounded manager creates a task for EVERY submitted coroutine and tracks it (strong reference)
+until its done callback -/
+theorem unbounded_starts_and_tracks (s : TSt) (c k : Nat) (hk : s.kind = .parallel) :
+    (submit s c k).tasks = s.tasks ++ [{ coro := c }] ∧ (submit s c k).tracked = s.tracked ++ [s.tasks.length] ∧
+    (submit s c k).ready = s.ready ++ [.step s.tasks.length] := by
+  unfold submit; rw [hk]; simp [TSt.createTask]
+
+-- non-vacuity (executable checks): limit 2, cancel_first: the third submission cancels the first coroutine
+#guard ((runT { kind := .limitingPar 2 .cancelFirst } [.submit 1 0, .submit 2 0, .submit 3 0]).log.reverse
+  == [.enter 1, .enter 2, .cancelled 1, .enter 3])
+#guard (runT { kind := .limitingPar 2 .cancelFirst } [.submit 1 0, .submit 2 0, .submit 3 0]).tracked.length == 2
+
 end Ea.C12
